@@ -895,3 +895,259 @@ Section History.
       now rewrite (rows_equiv_length _ _ _ HL), (rows_equiv_length _ _ _ HK), (rows_equiv_length _ _ _ HF).
   Qed.
 End History.
+
+(* ------------------------------------------------------------------ the log, read off the calls (C03_log) *)
+Section Log.
+  Variable W H : N.
+
+  Lemma attempt_forced m extra now tg : ms_target m = TTerm tg -> ms_attempt W m true extra now = true.
+  Proof. intros Ht. unfold ms_attempt. rewrite Ht. reflexivity. Qed.
+
+  Lemma refused_no_orphans m force extra now :
+    ms_attempt W m force extra now = false -> (exists tg, ms_target m = TTerm tg) -> ms_orphans m = [].
+  Proof.
+    intros Ha [tg Ht]. unfold ms_attempt in Ha. rewrite Ht in Ha.
+    destruct (ms_orphans m) as [|l r] eqn:Eo; [reflexivity|]. exfalso.
+    assert (Hf : (0 <? visual_line_count (l :: r) W) = true).
+    { rewrite visual_line_count_cons. apply N.ltb_lt. unfold wrapped_height. lia. }
+    rewrite Hf in Ha. cbn [negb] in Ha. rewrite !orb_true_r in Ha. cbn in Ha. discriminate.
+  Qed.
+
+  Lemma ms_draw_fields m force extra now c tg : ms_target m = TTerm tg ->
+    let m' := fst4 (ms_draw W H nofaults m force extra now c) in
+    ms_orphans m' = (if ms_attempt W m force extra now then [] else ms_orphans m)
+    /\ exists tg', ms_target m' = TTerm tg'.
+  Proof.
+    intros Ht. cbv zeta. rewrite (ms_draw_unfold W H nofaults m force extra now c tg Ht). cbv zeta.
+    unfold ms_attempt. rewrite Ht. fold (ms_has_text m extra).
+    destruct (fst (tt_allow _ _ now)); cbn [negb]; unfold fst4; cbn [fst].
+    - match goal with |- context [fold_left ms_remove_idx ?zs ?m0] =>
+        destruct (fold_remove_other zs m0) as (_ & Fo & _ & Ft); set (m2 := fold_left ms_remove_idx zs m0) in * end.
+      cbn [ms_orphans ms_target set_ms_target set_ms_zombie_lines set_ms_orphans] in Fo, Ft.
+      destruct (ms_has_text m extra).
+      + split; [exact Fo | eexists; exact Ft].
+      + cbn [ms_orphans ms_target set_ms_target set_ms_zombie_lines]. rewrite Ft. split; [exact Fo | eexists; reflexivity].
+    - split; [reflexivity | eexists; reflexivity].
+  Qed.
+
+  Lemma ms_clear_fields m c tg : ms_target m = TTerm tg ->
+    let m' := fst4 (ms_clear W H nofaults m c) in
+    ms_orphans m' = ms_orphans m /\ ms_members m' = ms_members m /\ ms_order m' = ms_order m
+    /\ exists tg', ms_target m' = TTerm tg'.
+  Proof.
+    intros Ht. cbv zeta. unfold ms_clear. rewrite Ht.
+    destruct (term_draw W H nofaults _ [] c) as [[[tg2 e] c'] ok]. unfold fst4. cbn.
+    repeat split. eexists; reflexivity.
+  Qed.
+
+  (** the lines a sequence of MultiState calls adds to the log, given that no orphan line is pending
+      before it: [log_of acts] when every [ADraw] with pending text is forced *)
+  Definition J (m : mstate) : Prop := ms_orphans m = [] /\ exists tg, ms_target m = TTerm tg.
+
+  (** a member draw / println: store, then draw (forced when text lines were stored) *)
+  Lemma log_store_draw now m c g idx texts bars force :
+    J m -> (texts <> [] -> force = true) ->
+    let acts := [AStore idx texts bars; ADraw force None] in
+    mg_log (g_run W H now m c acts g) = mg_log g ++ map lt texts
+    /\ J (fst (fst (mp_run W H nofaults now m c acts))).
+  Proof.
+    intros [Ho [tg Ht]] Hf. cbv zeta. cbn [g_run mp_run mp_exec1 g_act].
+    set (m1 := ms_store m idx texts bars).
+    assert (Ht1 : ms_target m1 = TTerm tg) by exact Ht.
+    assert (Ho1 : ms_orphans m1 = texts) by (unfold m1, ms_store; cbn; now rewrite Ho).
+    clearbody m1.
+    destruct (ms_draw_fields m1 force None now c tg Ht1) as [Eo Et]. unfold fst4 in *.
+    destruct (ms_draw W H nofaults m1 force None now c) as [[[m2 e] c2] ok]. cbn [fst snd] in *.
+    destruct (ms_attempt W m1 force None now) eqn:Ea.
+    - unfold g_draw, text_lines_of. cbn [app]. rewrite Ho1.
+      split; [destruct (ms_has_text m1 None); reflexivity | split; assumption].
+    - pose proof (refused_no_orphans m1 force None now Ea (ex_intro _ tg Ht1)) as Hn.
+      rewrite Ho1 in Hn. rewrite Hn in *. cbn [map]. rewrite app_nil_r.
+      split; [reflexivity|]. split; [rewrite Eo; exact Ho1 | exact Et].
+  Qed.
+
+  Lemma log_draw_actions now s c g b force : J (s_mp s) ->
+    let acts := draw_actions W s b force in
+    mg_log (g_run W H now (s_mp s) c acts g) = mg_log g
+    /\ J (fst (fst (mp_run W H nofaults now (s_mp s) c acts))).
+  Proof.
+    intros HJ. cbv zeta. unfold draw_actions. destruct (b_target (get_bar s b)).
+    - cbn. rewrite ?app_nil_r. split; [reflexivity | exact HJ].
+    - cbn. split; [reflexivity | exact HJ].
+    - pose proof (log_store_draw now (s_mp s) c g idx [] (stored_frame W (s_mp s) (get_bar s b))
+                    (force || finished (get_bar s b)) HJ ltac:(congruence)) as Hl.
+      cbv zeta in Hl. cbn [map] in Hl. rewrite app_nil_r in Hl. exact Hl.
+  Qed.
+
+  Lemma log_forced_draw now m c g extra : J m ->
+    let acts := [ADraw true extra] in
+    mg_log (g_run W H now m c acts g) = mg_log g ++ map lt (match extra with Some e => e | None => [] end)
+    /\ J (fst (fst (mp_run W H nofaults now m c acts))).
+  Proof.
+    intros [Ho [tg Ht]]. cbv zeta. cbn [g_run mp_run mp_exec1 g_act].
+    destruct (ms_draw_fields m true extra now c tg Ht) as [Eo Et]. unfold fst4 in *.
+    rewrite (attempt_forced m extra now tg Ht) in *.
+    destruct (ms_draw W H nofaults m true extra now c) as [[[m2 e] c2] ok]. cbn [fst snd] in *.
+    unfold g_draw, text_lines_of. rewrite Ho, app_nil_r.
+    split; [destruct (ms_has_text m extra); reflexivity | split; assumption].
+  Qed.
+
+  Lemma log_suspend now m c g ws : J m ->
+    let acts := [ASuspend ws] in
+    mg_log (g_run W H now m c acts g) = mg_log g ++ ws
+    /\ J (fst (fst (mp_run W H nofaults now m c acts))).
+  Proof.
+    intros [Ho [tg Ht]]. cbv zeta. cbn [g_run mp_run mp_exec1 g_act].
+    assert (HJ : J (fst (fst (ms_suspend W H nofaults m ws now c)))).
+    { unfold ms_suspend.
+      destruct (ms_clear_fields m c tg Ht) as (Eo1 & _ & _ & tg1 & Et1). unfold fst4 in *.
+      destruct (ms_clear W H nofaults m c) as [[[m1 e1] c1] ok1]. cbn [fst] in *.
+      rewrite Et1. set (m1' := set_ms_target m1 _).
+      rewrite emit_each_nofaults.
+      assert (Ht1' : ms_target m1' = TTerm (mktt 0 (tt_rl tg1) (tt_align tg1) (tt_below tg1))) by reflexivity.
+      destruct (ms_draw_fields m1' true None now (c1 + N.of_nat (length (map TLine ws))) _ Ht1') as [Eo Et].
+      rewrite (attempt_forced m1' None now _ Ht1') in Eo. unfold fst4 in *. clearbody m1'.
+      destruct (ms_draw W H nofaults m1' true None now _) as [[[m3 e3] c3] ok3]. cbn [fst snd] in *.
+      split; assumption. }
+    destruct (ms_suspend W H nofaults m ws now c) as [[m3 e3] c3]. cbn [fst snd] in *.
+    split; [|exact HJ].
+    unfold g_draw, text_lines_of. rewrite Ho. cbn [app map mg_log]. rewrite app_nil_r.
+    destruct (ms_has_text m None); reflexivity.
+  Qed.
+End Log.
+
+Section LogStep.
+  Variable W H : N.
+
+  Lemma g_run_app now acts1 : forall m c acts2 g,
+    g_run W H now m c (acts1 ++ acts2) g =
+    let '(m1, _, c1) := mp_run W H nofaults now m c acts1 in
+    g_run W H now m1 c1 acts2 (g_run W H now m c acts1 g).
+  Proof.
+    induction acts1 as [|a r IH]; intros m c acts2 g; cbn [g_run mp_run app]; [reflexivity|].
+    destruct (mp_exec1 W H nofaults now m c a) as [[[m1 e1] c1] ok1]. rewrite IH.
+    destruct (mp_run W H nofaults now m1 c1 r) as [[m2 e2] c2]. reflexivity.
+  Qed.
+
+  Lemma J_mark m idx : J m -> J (ms_mark_zombie W m idx).
+  Proof.
+    intros [Ho [tg Ht]]. unfold ms_mark_zombie. destruct (ms_order m) as [|first rest]; [split; eauto|].
+    destruct (negb (idx =? first)); [split; eauto|].
+    match goal with |- context [ms_remove_idx ?m0 idx] => destruct (remove_idx_other m0 idx) as (_ & Eo & _ & Et) end.
+    split; [rewrite Eo; exact Ho|]. rewrite Et. cbn. rewrite Ht. cbn. eauto.
+  Qed.
+
+  Lemma J_remove m idx : J m -> J (ms_remove_idx m idx).
+  Proof.
+    intros [Ho [tg Ht]]. destruct (remove_idx_other m idx) as (_ & Eo & _ & Et).
+    split; [rewrite Eo; exact Ho | rewrite Et; eauto].
+  Qed.
+
+  Lemma J_insert m loc m1 idx : J m -> ms_insert m loc = Some (m1, idx) -> J m1.
+  Proof.
+    intros [Ho [tg Ht]] Hi. unfold ms_insert in Hi.
+    assert (Hgen : forall p : mstate * N, ms_orphans (fst p) = [] -> ms_target (fst p) = TTerm tg ->
+              (let '(m1, idx) := p in
+               let ord := ms_order m1 in
+               let n := length ord in
+               match loc with
+               | LEnd => Some (set_ms_order m1 (ord ++ [idx]), idx)
+               | LIndex p => Some (set_ms_order m1 (insert_at ord (Nat.min (N.to_nat p) n) idx), idx)
+               | LFromBack p => Some (set_ms_order m1 (insert_at ord (n - N.to_nat p) idx), idx)
+               | LAfter r => match posN r ord with
+                             | Some p => Some (set_ms_order m1 (insert_at ord (S p) idx), idx)
+                             | None => None
+                             end
+               | LBefore r => match posN r ord with
+                              | Some p => Some (set_ms_order m1 (insert_at ord p idx), idx)
+                              | None => None
+                              end
+               end) = Some (m1, idx) -> J m1).
+    { intros [m0 i0] Eo Et Hx. cbn [fst] in *. cbv zeta in Hx.
+      destruct loc as [|p0|p0|r|r]; try destruct (posN r (ms_order m0)); try discriminate;
+        injection Hx as <- _; (split; [exact Eo | exists tg; exact Et]). }
+    eapply Hgen; [| |exact Hi]; destruct (ms_free m); cbn; assumption.
+  Qed.
+
+  Lemma mp_println_lt m :
+    map lt (match m with [] => [mkline KEmpty []] | _ => map (mkline KText) (lines_of m) end)
+    = mp_println_lines m.
+  Proof. destruct m as [|c r]; [reflexivity|]. unfold mp_println_lines. rewrite map_map. cbn [lt]. apply map_id. Qed.
+
+  (** the log after a public call = the log before ++ the lines the call prints ([op_log], read
+      off the call); no orphan line is pending between two public calls *)
+  Lemma op_log_step s now o g :
+    J (s_mp s) -> no_own_term s -> fits_run W H now (s_mp s) (s_calls s) (op_actions W s now o) ->
+    mg_log (g_run W H now (s_mp s) (s_calls s) (op_actions W s now o) g) = mg_log g ++ op_log s o
+    /\ J (fst (fst (mp_run W H nofaults now (s_mp s) (s_calls s) (op_actions W s now o)))).
+  Proof.
+    intros HJ Hno Hfit.
+    assert (Hd : forall s1 b force, s_mp s1 = s_mp s ->
+              mg_log (g_run W H now (s_mp s) (s_calls s) (draw_actions W s1 b force) g) = mg_log g ++ []
+              /\ J (fst (fst (mp_run W H nofaults now (s_mp s) (s_calls s) (draw_actions W s1 b force))))).
+    { intros s1 b force E. rewrite app_nil_r, <- E. apply log_draw_actions. rewrite E. exact HJ. }
+    assert (Hnil : mg_log g = mg_log g ++ [] /\ J (s_mp s)) by (rewrite app_nil_r; auto).
+    destruct o; cbn [op_actions op_log]; try (apply Hd; reflexivity); try exact Hnil.
+    all: try (unfold pos_actions;
+              match goal with |- context [ap_allow ?a ?b] => destruct (ap_allow a b) as [[|] ap'] end;
+              [apply Hd; reflexivity | exact Hnil]).
+    - (* OPrintln *)
+      unfold is_member. destruct (b_target (get_bar s b)) as [|tg|idx]; [exact Hnil | exact Hnil |].
+      pose proof (log_store_draw W H now (s_mp s) (s_calls s) g idx (text_lines m)
+                    (stored_frame W (s_mp s) (get_bar s b)) true HJ ltac:(reflexivity)) as Hl.
+      cbv zeta in Hl. rewrite (text_lines_lt m) in Hl. exact Hl.
+    - (* OSuspend *)
+      pose proof (Hno b) as Hb. destruct (b_target (get_bar s b)) as [|tg|idx]; [|contradiction|].
+      + cbn [fits_run fits_act] in Hfit. destruct Hfit as [-> _].
+        cbn. rewrite ?app_nil_r. split; [destruct g; reflexivity | exact HJ].
+      + apply log_suspend. exact HJ.
+    - (* ODrop *)
+      rewrite g_run_app, mp_run_app.
+      assert (Hfin : mg_log (g_run W H now (s_mp s) (s_calls s)
+                               (if finished (get_bar s b) then [] else finish_actions W s b (b_on_finish (get_bar s b))) g)
+                     = mg_log g
+                     /\ J (fst (fst (mp_run W H nofaults now (s_mp s) (s_calls s)
+                               (if finished (get_bar s b) then [] else finish_actions W s b (b_on_finish (get_bar s b))))))).
+      { destruct (finished (get_bar s b)); [split; [reflexivity | exact HJ]|].
+        unfold finish_actions. destruct (Hd (upd_bar s b (finish_upd (b_on_finish (get_bar s b)))) b true eq_refl) as [A B].
+        rewrite app_nil_r in A. split; assumption. }
+      destruct Hfin as [Hl1 HJ1].
+      destruct (mp_run W H nofaults now (s_mp s) (s_calls s)
+                  (if finished (get_bar s b) then [] else finish_actions W s b (b_on_finish (get_bar s b)))) as [[m1 e1] c1].
+      cbn [fst] in HJ1. rewrite app_nil_r.
+      destruct (b_target (get_bar s b)) as [|tg|idx]; cbn [g_run mp_run mp_exec1 fst g_act]; try (split; assumption).
+      split; [|apply J_mark; exact HJ1].
+      destruct (ms_order m1) as [|first rest]; [exact Hl1|]. destruct (idx =? first); [exact Hl1 | exact Hl1].
+    - (* OInsert *)
+      match goal with |- context [match ?x with Some l => _ | None => _ end] => destruct x as [l|] end; [|exact Hnil].
+      destruct (ms_insert (s_mp s) l) as [[m1 idx]|] eqn:Ei; [|exact Hnil].
+      pose proof (J_insert _ _ _ _ HJ Ei) as HJ1.
+      cbn [g_run mp_run mp_exec1 g_act]. rewrite Ei.
+      destruct (b_target (get_bar s b)) as [|tg|idx0].
+      + cbn. rewrite ?app_nil_r. auto.
+      + cbn. rewrite ?app_nil_r. auto.
+      + pose proof (log_store_draw W H now m1 (s_calls s) g idx0 [] [] true HJ1 ltac:(reflexivity)) as Hl.
+        cbv zeta in Hl.
+        destruct (mp_run W H nofaults now m1 (s_calls s) [AStore idx0 [] []; ADraw true None]) as [[m2 e2] c2].
+        cbn [fst snd] in *. exact Hl.
+    - (* ORemove *)
+      destruct (b_target (get_bar s b)) as [|tg|idx]; [exact Hnil | exact Hnil |].
+      cbn [g_run mp_run mp_exec1 g_act].
+      pose proof (log_forced_draw W H now (ms_remove_idx (s_mp s) idx) (s_calls s) g None (J_remove _ idx HJ)) as Hl.
+      cbv zeta in Hl.
+      destruct (mp_run W H nofaults now (ms_remove_idx (s_mp s) idx) (s_calls s) [ADraw true None]) as [[m2 e2] c2].
+      cbn [fst snd] in *. exact Hl.
+    - (* OMPrintln *)
+      pose proof (log_forced_draw W H now (s_mp s) (s_calls s) g
+                    (Some (match m with [] => [mkline KEmpty []] | _ => map (mkline KText) (lines_of m) end)) HJ) as Hl.
+      cbv zeta in Hl. rewrite mp_println_lt in Hl. exact Hl.
+    - (* OMSuspend *) apply log_suspend. exact HJ.
+    - (* OMClear *)
+      cbn [g_run mp_run mp_exec1 g_act mg_log]. destruct HJ as [Ho [tg Ht]].
+      destruct (ms_clear_fields W H (s_mp s) (s_calls s) tg Ht) as (Eo & _ & _ & Et). unfold fst4 in *.
+      destruct (ms_clear W H nofaults (s_mp s) (s_calls s)) as [[[m1 e1] c1] ok1]. cbn [fst snd] in *.
+      rewrite app_nil_r. split; [reflexivity | split; [congruence | exact Et]].
+    - (* OSetAlign *)
+      cbn. rewrite app_nil_r. split; [reflexivity | exact HJ].
+  Qed.
+End LogStep.
